@@ -12,7 +12,7 @@ pub fn def() -> PropDef {
     PropDef {
         info: PropInfo {
             id: "C15",
-            rule: "streams of 1-40 whole instructions: every supported opcode (and tail_call), all 16 values of both register nibbles, offsets incl. -32768, boundary-heavy and random immediates, lddw pairs with arbitrary halves, call kinds 0/1. Oracle: to_insn_vec under catch_unwind gives one entry per instruction (lddw merged); opc/dst/src/off equal the independent decoder's; imm equals the encoded immediate (lddw: lo | hi<<32); name equals the table mnemonic; desc, parsed by the harness's own parser of the assembler syntax, has a mnemonic that the documented table maps to this opcode and operands that denote the same values in every field the instruction uses (a 32-bit immediate may be printed as its two's-complement pattern). Thorough tier additionally enumerates every opcode x all 65536 offsets. Non-trivial = stream containing a negative offset/immediate, a register >= r10 or an lddw; distinct by hash.",
+            rule: "streams of 1-40 whole instructions: every supported opcode (and tail_call), all 16 values of both register nibbles, offsets incl. -32768, boundary-heavy and random immediates, lddw pairs with arbitrary halves, call kinds 0/1. Oracle: to_insn_vec under catch_unwind gives one entry per instruction (lddw merged); opc/dst/src/off equal the independent decoder's; imm equals the encoded immediate (lddw: lo | hi<<32); name equals the table mnemonic; desc, parsed by the harness's own parser of the assembler syntax, has a mnemonic that the documented table maps to this opcode and operands that denote the same values in every field the instruction uses (a 32-bit immediate may be printed as its two's-complement pattern). What disassemble() prints (stdout captured) must be exactly those texts, one per line. Long programs of up to 2^17 (+4) slots (2^19 in the thorough tier) with wide loads back to back from slot 0 or slot 1, before every multiple of 2^j, or scattered, go through both. Thorough tier additionally enumerates every opcode x all 65536 offsets. Non-trivial = stream containing a negative offset/immediate, a register >= r10 or an lddw; distinct by hash.",
             assumptions: &["byte swaps with a width other than 16/32/64 have no rendering in the assembler syntax: only fields and absence of panic are checked for them", "xadd and tail_call have no assembler spelling: their text only needs to start with the name"],
         },
         run: run15,
@@ -25,7 +25,7 @@ pub fn def16() -> PropDef {
     PropDef {
         info: PropInfo {
             id: "C16",
-            rule: "same instruction-stream generator as C15, half of the streams forced into the expressible/canonical class (assembler-expressible opcodes, unused fields zero, 32-bit immediates >= 0, any 64-bit value for lddw, byte-swap widths 16/32/64). Oracle: class 1 => assemble(join(desc, newline)) == Ok(original bytes); other programs => if assemble() accepts the text the result equals the canonical form computed by the harness (same opcodes, same used-field values, unused fields cleared), an Err is fine. Non-trivial = class-1 program of >= 2 instructions, or a class-2 program the assembler accepted; distinct by hash.",
+            rule: "same instruction-stream generator as C15, half of the streams forced into the expressible/canonical class (assembler-expressible opcodes, unused fields zero, 32-bit immediates >= 0, any 64-bit value for lddw, byte-swap widths 16/32/64). The text is join(to_insn_vec().desc, newline) and, in a second stream, the captured stdout of disassemble(); long expressible programs of up to 2^15 (+4) slots (2^17 in the thorough tier) with wide loads at every kind of position go through both. Oracle: class 1 => assemble(text) == Ok(original bytes); other programs => if assemble() accepts the text the result equals the canonical form computed by the harness (same opcodes, same used-field values, unused fields cleared), an Err is fine. Non-trivial = class-1 program of >= 2 instructions, or a class-2 program the assembler accepted; distinct by hash.",
             assumptions: &["canonical form = harness/vrun/src/isa.rs::uses_of table"],
         },
         run: run16,
@@ -50,6 +50,130 @@ fn sinsn() -> impl Strategy<Value = SInsn> {
 
 pub fn stream() -> impl Strategy<Value = (Vec<SInsn>, bool)> {
     (prop::collection::vec(sinsn(), 1..40), any::<bool>())
+}
+
+/// Long programs (up to 2^max_log slots and a little more) whose wide loads sit on every kind of
+/// position: back to back from slot 0 or from slot 1 (one of the two parities straddles every
+/// boundary of any chunk size), first halves on the last slot before each multiple of 2^j, or
+/// scattered at random among single-slot instructions. All of them are assembler-expressible and
+/// canonical, so that they serve C16 as well.
+#[derive(Clone, Debug)]
+pub struct LongSpec {
+    pub total: usize,
+    pub lead: usize,
+    pub mode: u8,
+    pub j: u8,
+    pub seed: u64,
+}
+
+pub fn long_spec(max_log: u32) -> impl Strategy<Value = LongSpec> {
+    let total = prop_oneof![
+        3 => (6u32..=max_log, -3i64..=4).prop_map(|(j, d)| ((1i64 << j) + d) as usize),
+        1 => 64usize..(1usize << max_log),
+    ];
+    (total, 0usize..2, 0u8..3, 3u8..=16, any::<u64>()).prop_map(|(total, lead, mode, j, seed)| LongSpec { total, lead, mode, j, seed })
+}
+
+pub fn long_bytes(s: &LongSpec) -> Vec<u8> {
+    let mut out: Vec<u8> = Vec::with_capacity(s.total * 8 + 16);
+    let mut x = s.seed | 1;
+    let mut next = move || {
+        x ^= x << 13;
+        x ^= x >> 7;
+        x ^= x << 17;
+        x
+    };
+    let mut n = 0usize;
+    while n < s.total {
+        let r = next();
+        let lddw = n >= s.lead
+            && n + 2 <= s.total
+            && match s.mode {
+                0 => true,
+                1 => (n + 1) % (1usize << s.j) == 0,
+                _ => r & 3 == 0,
+            };
+        if lddw {
+            out.extend_from_slice(&Insn::new(LDDW, (r >> 8) as u8 % 10, 0, 0, (r >> 16) as i32).encode());
+            out.extend_from_slice(&Insn::new(0, 0, 0, 0, (r >> 40) as i32 ^ n as i32).encode());
+            n += 2;
+        } else {
+            let (d, sr) = ((r >> 8) as u8 % 10, (r >> 12) as u8 % 10);
+            let i = match r % 3 {
+                0 => Insn::new(alu_opc(true, ALU_MOV, false), d, 0, 0, (r >> 20) as i32 & 0x7fff_ffff),
+                1 => Insn::new(alu_opc(r & 64 != 0, ALU_ADD, true), d, sr, 0, 0),
+                _ => Insn::new(ldx_opc(8), d, sr, (r >> 20) as i16, 0),
+            };
+            out.extend_from_slice(&i.encode());
+            n += 1;
+        }
+    }
+    out
+}
+
+pub fn long_json(s: &LongSpec) -> Value {
+    json!({"total": s.total, "lead": s.lead, "mode": s.mode, "j": s.j, "seed": s.seed.to_string()})
+}
+
+pub fn long_from_json(v: &Value) -> Option<LongSpec> {
+    Some(LongSpec {
+        total: v["total"].as_u64()? as usize,
+        lead: v["lead"].as_u64()? as usize,
+        mode: v["mode"].as_u64()? as u8,
+        j: v["j"].as_u64()? as u8,
+        seed: v["seed"].as_str()?.parse().ok()?,
+    })
+}
+
+fn short_hex(b: &[u8]) -> String {
+    if b.len() <= 1024 {
+        isa::hex(b)
+    } else {
+        format!("{}... ({} bytes)", isa::hex(&b[..256]), b.len())
+    }
+}
+
+fn short_text(t: &str) -> String {
+    if t.len() <= 2000 {
+        format!("{t:?}")
+    } else {
+        let cut = (0..=600).rev().find(|k| t.is_char_boundary(*k)).unwrap_or(0);
+        format!("{:?}... ({} bytes of text)", &t[..cut], t.len())
+    }
+}
+
+/// What `disassemble()` prints: one line per entry of `to_insn_vec()`, the entry's text.
+pub fn printed_text(bytes: &[u8]) -> Result<String, Verdict> {
+    let b = bytes.to_vec();
+    let (r, out) = super::capture_stdout(move || rbpf::disassembler::disassemble(&b));
+    if let Err(m) = r {
+        return Err(Verdict::fail(format!("disassemble:{}", panic_signature(&m)), format!("disassemble() panicked: {m}
+{}", isa::listing(bytes, 12).join("\n"))));
+    }
+    Ok(String::from_utf8_lossy(&out).to_string())
+}
+
+pub fn check_printed(bytes: &[u8]) -> Verdict {
+    let b = bytes.to_vec();
+    let hl = match catch(move || rbpf::disassembler::to_insn_vec(&b)) {
+        Ok(h) => h,
+        Err(m) => return Verdict::fail(panic_signature(&m), format!("to_insn_vec panicked: {m}\n{}", isa::listing(bytes, 12).join("\n"))),
+    };
+    let text = match printed_text(bytes) {
+        Ok(t) => t,
+        Err(v) => return v,
+    };
+    let mut lines = text.lines();
+    for (k, h) in hl.iter().enumerate() {
+        match lines.next() {
+            Some(l) if l == h.desc => {}
+            other => return Verdict::fail("disassemble:printed-line-differs", format!("entry {k}: to_insn_vec says {:?}, disassemble() printed {other:?}", h.desc)),
+        }
+    }
+    if let Some(extra) = lines.next() {
+        return Verdict::fail("disassemble:extra-line", format!("disassemble() printed an extra line {extra:?} after {} entries", hl.len()));
+    }
+    Verdict::Pass
 }
 
 /// The assembler cannot express xadd and tail_call.
@@ -259,10 +383,65 @@ fn run15(ctx: &Ctx) {
         }
         (v, if want_case { json!({"bytes": isa::hex(&bytes), "listing": isa::listing(&bytes, 40)}) } else { Value::Null })
     });
+    // what disassemble() prints is the text of those entries
+    let cases = ctx.share(ctx.tier.pick(40_000, 1_200_000));
+    ctx.search("printed", "bytes", cases, stream(), |(s, canon), want_case| {
+        let bytes = lower(s, *canon);
+        let v = check_printed(&bytes);
+        if !want_case {
+            let mut st = ctx.stats();
+            st.eval();
+            st.class("printed-by-disassemble()");
+            if nontrivial15(&bytes) {
+                st.nontrivial(fnv(&bytes) ^ 1);
+            }
+        }
+        (v, if want_case { json!({"bytes": isa::hex(&bytes), "listing": isa::listing(&bytes, 40)}) } else { Value::Null })
+    });
+    // long programs: "programs of any length"
+    ctx.shrink_iters.set(200);
+    let cases = ctx.share(ctx.tier.pick(320, 16_000));
+    ctx.search("long", "long", cases, long_spec(ctx.tier.pick(17, 19) as u32), |spec, want_case| {
+        let v = check15_long(spec);
+        if !want_case {
+            let mut st = ctx.stats();
+            st.eval();
+            st.class(match spec.total {
+                0..=1000 => "long:<=1000-slots",
+                1001..=8192 => "long:1001-8192-slots",
+                8193..=65536 => "long:8193-65536-slots",
+                _ => "long:>65536-slots",
+            });
+            st.class(match spec.mode { 0 => "long:back-to-back-lddw", 1 => "long:lddw-before-each-2^j", _ => "long:scattered-lddw" });
+            st.nontrivial(fnv_str(&format!("{spec:?}")));
+            st.sample(2, || long_json(spec));
+        }
+        (v, if want_case { long_json(spec) } else { Value::Null })
+    });
 }
 
-fn replay15(_ctx: &Ctx, _kind: &str, case: &Value) -> Verdict {
-    check_disasm(&isa::unhex(case["bytes"].as_str().unwrap_or("")))
+fn check15_long(spec: &LongSpec) -> Verdict {
+    let bytes = long_bytes(spec);
+    let v = check_disasm(&bytes);
+    if !matches!(v, Verdict::Pass) {
+        return v;
+    }
+    check_printed(&bytes)
+}
+
+fn replay15(_ctx: &Ctx, kind: &str, case: &Value) -> Verdict {
+    if kind == "long" {
+        return match long_from_json(case) {
+            Some(s) => check15_long(&s),
+            None => Verdict::Discard("bad-replay"),
+        };
+    }
+    let bytes = isa::unhex(case["bytes"].as_str().unwrap_or(""));
+    let v = check_disasm(&bytes);
+    if !matches!(v, Verdict::Pass) {
+        return v;
+    }
+    check_printed(&bytes)
 }
 
 // ---- C16 -----------------------------------------------------------------------------------
@@ -327,17 +506,29 @@ fn canonical_bytes(bytes: &[u8]) -> Vec<u8> {
 
 /// (verdict, class1?, accepted?)
 pub fn check_roundtrip(bytes: &[u8]) -> (Verdict, bool, bool) {
+    check_roundtrip_via(bytes, false)
+}
+
+/// `printed`: take the text from what disassemble() prints instead of joining to_insn_vec().desc
+pub fn check_roundtrip_via(bytes: &[u8], printed: bool) -> (Verdict, bool, bool) {
     let class1 = is_class1(bytes);
-    let b = bytes.to_vec();
-    let hl = match catch(move || rbpf::disassembler::to_insn_vec(&b)) {
-        Ok(h) => h,
-        Err(m) => return (Verdict::fail(panic_signature(&m), format!("to_insn_vec panicked: {m}")), class1, false),
+    let text: String = if printed {
+        match printed_text(bytes) {
+            Ok(t) => t,
+            Err(v) => return (v, class1, false),
+        }
+    } else {
+        let b = bytes.to_vec();
+        let hl = match catch(move || rbpf::disassembler::to_insn_vec(&b)) {
+            Ok(h) => h,
+            Err(m) => return (Verdict::fail(panic_signature(&m), format!("to_insn_vec panicked: {m}")), class1, false),
+        };
+        hl.iter().map(|h| h.desc.clone()).collect::<Vec<_>>().join("\n")
     };
-    let text: String = hl.iter().map(|h| h.desc.clone()).collect::<Vec<_>>().join("\n");
     let t = text.clone();
     let res = match catch(move || rbpf::assembler::assemble(&t)) {
         Ok(r) => r,
-        Err(m) => return (Verdict::fail(panic_signature(&m), format!("assemble panicked on {text:?}: {m}")), class1, false),
+        Err(m) => return (Verdict::fail(panic_signature(&m), format!("assemble panicked on {}: {m}", short_text(&text))), class1, false),
     };
     match res {
         Ok(q) => {
@@ -348,7 +539,7 @@ pub fn check_roundtrip(bytes: &[u8]) -> (Verdict, bool, bool) {
                 (
                     Verdict::fail(
                         if class1 { "roundtrip-differs" } else { "not-canonical-form" },
-                        format!("program {}\n text {text:?}\n reassembled {}\n expected    {}", isa::hex(bytes), isa::hex(&q), isa::hex(&want)),
+                        format!("program {}\n text {}\n reassembled {}\n expected    {}", short_hex(bytes), short_text(&text), short_hex(&q), short_hex(&want)),
                     ),
                     class1,
                     true,
@@ -357,7 +548,7 @@ pub fn check_roundtrip(bytes: &[u8]) -> (Verdict, bool, bool) {
         }
         Err(e) => {
             if class1 {
-                (Verdict::fail("roundtrip-rejected", format!("program {} (expressible, canonical)\n text {text:?}\n rejected: {e}", isa::hex(bytes))), class1, false)
+                (Verdict::fail("roundtrip-rejected", format!("program {} (expressible, canonical)\n text {}\n rejected: {e}", short_hex(bytes), short_text(&text))), class1, false)
             } else {
                 (Verdict::Pass, class1, false)
             }
@@ -405,8 +596,62 @@ fn run16(ctx: &Ctx) {
         }
         (v, if want_case { json!({"bytes": isa::hex(&bytes), "listing": isa::listing(&bytes, 40)}) } else { Value::Null })
     });
+    // the printed text (stdout of disassemble()) round-trips as well
+    let cases = ctx.share(ctx.tier.pick(40_000, 1_200_000));
+    ctx.search("printed", "bytes", cases, stream(), |(s, canon), want_case| {
+        let bytes = lower(s, *canon);
+        let (v, class1, accepted) = check_roundtrip_via(&bytes, true);
+        if !want_case {
+            let mut st = ctx.stats();
+            st.eval();
+            st.class("text-printed-by-disassemble()");
+            if (class1 && bytes.len() >= 16) || (!class1 && accepted) {
+                st.nontrivial(fnv(&bytes) ^ 1);
+            }
+        }
+        (v, if want_case { json!({"bytes": isa::hex(&bytes), "listing": isa::listing(&bytes, 40)}) } else { Value::Null })
+    });
+    // long expressible programs: "of any length"
+    ctx.shrink_iters.set(100);
+    let cases = ctx.share(ctx.tier.pick(480, 9_600));
+    ctx.search("long", "long", cases, long_spec(ctx.tier.pick(15, 17) as u32), |spec, want_case| {
+        let v = check16_long(spec);
+        if !want_case {
+            let mut st = ctx.stats();
+            st.eval();
+            st.class(match spec.total {
+                0..=1000 => "long:<=1000-slots",
+                1001..=8192 => "long:1001-8192-slots",
+                _ => "long:>8192-slots",
+            });
+            st.class(match spec.mode { 0 => "long:back-to-back-lddw", 1 => "long:lddw-before-each-2^j", _ => "long:scattered-lddw" });
+            st.nontrivial(fnv_str(&format!("{spec:?}")));
+            st.sample(2, || long_json(spec));
+        }
+        (v, if want_case { long_json(spec) } else { Value::Null })
+    });
 }
 
-fn replay16(_ctx: &Ctx, _kind: &str, case: &Value) -> Verdict {
-    check_roundtrip(&isa::unhex(case["bytes"].as_str().unwrap_or(""))).0
+fn check16_long(spec: &LongSpec) -> Verdict {
+    let bytes = long_bytes(spec);
+    let v = check_roundtrip_via(&bytes, true).0;
+    if !matches!(v, Verdict::Pass) {
+        return v;
+    }
+    check_roundtrip_via(&bytes, false).0
+}
+
+fn replay16(_ctx: &Ctx, kind: &str, case: &Value) -> Verdict {
+    if kind == "long" {
+        return match long_from_json(case) {
+            Some(s) => check16_long(&s),
+            None => Verdict::Discard("bad-replay"),
+        };
+    }
+    let bytes = isa::unhex(case["bytes"].as_str().unwrap_or(""));
+    let v = check_roundtrip_via(&bytes, false).0;
+    if !matches!(v, Verdict::Pass) {
+        return v;
+    }
+    check_roundtrip_via(&bytes, true).0
 }
